@@ -29,7 +29,22 @@ let show_block_result stream_tx (b, rest) =
   "i" ^ Printf.sprintf "%x" (List.length rest) ^ " " ^ show_outcome show_bytes (block_stream stream_tx b) ^ " " ^
   show_outcome show_bytes (block_id dsha b.b_header) ^ ")"
 
+let arg_op (t : string) : block_op =
+  let body = String.sub t 1 (String.length t - 1) in
+  match t.[0] with
+  | 'h' -> OpHash | 'i' -> OpId | 'S' -> OpId          (* S = str(b): shows id() *)
+  | 's' -> OpStreamHeader | 'a' -> OpStreamHeader       (* a = as_bin() of a header-only object *)
+  | 'n' -> OpSetNonce (n_of_hex body) | 'v' -> OpSetVersion (n_of_hex body)
+  | 't' -> OpSetTimestamp (n_of_hex body) | 'd' -> OpSetDifficulty (n_of_hex body)
+  | 'p' -> OpSetPrev (bytes_of_hex body) | 'r' -> OpSetRoot (bytes_of_hex body)
+  | _ -> failwith ("arg_op " ^ t)
+let show_obs = show_list (show_outcome show_bytes)
+
 let dispatch f args = match f, args with
+  | "block_history", [v; p; m; t; d; n; ops] ->
+    show_obs (obj_run dsha { o_header = mk_header v p m t d n; o_memo = None } (arg_list arg_op ops))
+  | "block_history_spec", [v; p; m; t; d; n; ops] ->
+    show_obs (spec_run dsha (mk_header v p m t d n) (arg_list arg_op ops))
   | "merkle", [hs] -> show_outcome show_bytes (merkle dsha (arg_list arg_bytes hs))
   | "merkle_sha", [hs] -> show_outcome show_bytes (merkle (oracle "sha256") (arg_list arg_bytes hs))
   | "merkle_pair", [hs] -> show_outcome show_blist (merkle_pair dsha (arg_list arg_bytes hs))
